@@ -11,6 +11,7 @@ import (
 
 	"oss.terrastruct.com/d2/d2format"
 	"oss.terrastruct.com/d2/d2graph"
+	"oss.terrastruct.com/d2/d2oracle"
 )
 
 type kv = [2]string
@@ -93,6 +94,9 @@ type CObj struct {
 	Path  []string `json:"path"`
 	Label string   `json:"label"`
 	Attrs []kv     `json:"attrs"`
+	// Mix: on a nested board, the element is referenced both inside the board's own block and outside of it
+	// (inherited and locally restyled) — a hint for the operation generator, not part of the content
+	Mix bool `json:"mix,omitempty"`
 }
 
 type CEdge struct {
@@ -104,6 +108,7 @@ type CEdge struct {
 	Idx   int      `json:"idx"`
 	Label string   `json:"label"`
 	Attrs []kv     `json:"attrs"`
+	Mix   bool     `json:"mix,omitempty"`
 }
 
 type CGraph struct {
@@ -120,7 +125,12 @@ func Canon(g *d2graph.Graph) CGraph {
 	}
 	for _, o := range g.Objects {
 		p := valPath(o)
-		cg.Objs = append(cg.Objs, CObj{ID: o.AbsID(), Path: p, Label: o.Label.Value, Attrs: attrKVs(&o.Attributes, false)})
+		mix := false
+		if g.Parent != nil && g.BaseAST != nil {
+			w := len(d2oracle.GetWriteableRefs(o, g.BaseAST))
+			mix = w > 0 && w < len(o.References)
+		}
+		cg.Objs = append(cg.Objs, CObj{ID: o.AbsID(), Path: p, Label: o.Label.Value, Attrs: attrKVs(&o.Attributes, false), Mix: mix})
 	}
 	for _, e := range g.Edges {
 		at := attrKVs(&e.Attributes, true)
@@ -141,8 +151,13 @@ func Canon(g *d2graph.Graph) CGraph {
 			}
 		}
 		sort.Slice(at, func(i, j int) bool { return at[i][0] < at[j][0] })
+		mix := false
+		if g.Parent != nil && g.BaseAST != nil {
+			w := len(d2oracle.GetWriteableEdgeRefs(e, g.BaseAST))
+			mix = w > 0 && w < len(e.References)
+		}
 		cg.Edges = append(cg.Edges, CEdge{ID: e.AbsID(), Src: valPath(e.Src), Dst: valPath(e.Dst),
-			SA: e.SrcArrow, DA: e.DstArrow, Idx: e.Index, Label: e.Label.Value, Attrs: at})
+			SA: e.SrcArrow, DA: e.DstArrow, Idx: e.Index, Label: e.Label.Value, Attrs: at, Mix: mix})
 	}
 	sort.SliceStable(cg.Objs, func(i, j int) bool { return cg.Objs[i].ID < cg.Objs[j].ID })
 	sort.SliceStable(cg.Edges, func(i, j int) bool { return cg.Edges[i].ID < cg.Edges[j].ID })
